@@ -38,9 +38,14 @@ def items(tier, plain=False):
 def run(rep, tier, names=("c03_events",), plain=False):
     its = [(t, b, names) for t, b in items(tier, plain)]
     total = e1.Out()
-    with mp.get_context("fork").Pool(ncpu()) as pool:
-        for o in pool.imap_unordered(_G(_one, rep.prop), its, chunksize=32):
-            total.merge(o)
+    from .. import par
+
+    for o in par.pmap_unordered(_G(_one, rep.prop), its, chunksize=32):
+        if isinstance(o, par.WorkerDied):
+            _d = e1.Out()
+            _d.violate(rep.prop, f"{rep.prop}|worker-process-died", f"{o.why} while checking {repr(o.item)[:300]}", {"item": repr(o.item)[:2000]}, 0)
+            o = _d
+        total.merge(o)
     rep.add("corpus_pickles", len(its))
     rep.add("evaluations", len(its))
     rep.add("traces_validated_against_impl", len(its))
